@@ -303,6 +303,10 @@ Definition check_C19 (op : bytes) (input impl : arg) : arg :=
     | AL [truth] => check_sigpkt truth impl
     | _ => if is_outcome impl 2 then AS "packet.Read panicked" else AL []
     end
+  else if bytes_eqb op (bs "sig") then
+    (* a signature blob of any content: the reader answers with a packet or an error; a panic ends the
+       description of the whole package (nothing on RPMFile's path recovers) *)
+    if is_outcome impl 2 then AS "packet.Read panicked on a signature blob (the package that stores it cannot be described)" else AL []
   else if bytes_eqb op (bs "alloc") then
     (* C08's bound, checked here because the index entries are C19's malformed stream:
        memory allocated while describing the file stays within 1 MiB + 256 x file size *)
